@@ -13,7 +13,7 @@
 #include "hx.h"
 #include "fault.h"
 
-static KSI_CTX *ctx;
+static KSI_CTX *ctx, *pctx;
 static KSI_PublicationsFile *loaded;
 
 static KSI_CertConstraint *constraints(char **tok, int n, unsigned char ***keep) {
@@ -42,7 +42,20 @@ int main(void) {
 		n = hx_split(line, tok, 200);
 		if (n == 0) continue;
 		if (fault_cmd(tok, n)) { fflush(stdout); continue; }
-		if (!strcmp(tok[0], "CTX")) {
+		if (!strcmp(tok[0], "PCTX")) {
+			/* PCTX <caFile|-> <oid valueHex>... | PCTX off : a second context under which VERIFY parses the file (the verification itself is asked of the CTX context) */
+			int rc = KSI_OK; KSI_PKITruststore *pki = NULL;
+			KSI_CTX_free(pctx); pctx = NULL;
+			if (n > 1 && strcmp(tok[1], "off")) {
+				rc = KSI_CTX_new(&pctx);
+				if (rc == KSI_OK) rc = KSI_PKITruststore_new(pctx, 0, &pki);
+				if (rc == KSI_OK && strcmp(tok[1], "-")) rc = KSI_PKITruststore_addLookupFile(pki, tok[1]);
+				if (rc == KSI_OK) { rc = KSI_CTX_setPKITruststore(pctx, pki); if (rc != KSI_OK) KSI_PKITruststore_free(pki); } else KSI_PKITruststore_free(pki);
+				if (rc == KSI_OK) { unsigned char **bufs; KSI_CertConstraint *arr = constraints(tok + 2, n - 2, &bufs);
+					rc = KSI_CTX_setDefaultPubFileCertConstraints(pctx, arr); free_constraints(arr, bufs); }
+			}
+			printf("R pctx rc=0x%x\n", rc);
+		} else if (!strcmp(tok[0], "CTX")) {
 			KSI_PKITruststore *pki = NULL; int rc;
 			KSI_PublicationsFile_free(loaded); loaded = NULL; KSI_CTX_free(ctx); ctx = NULL;
 			rc = KSI_CTX_new(&ctx);
@@ -54,7 +67,7 @@ int main(void) {
 			printf("R ctx rc=0x%x\n", rc);
 		} else if (!strcmp(tok[0], "PARSE") || !strcmp(tok[0], "VERIFY") || !strcmp(tok[0], "LOAD")) {
 			size_t l; unsigned char *b = hx_dec(tok[1], &l); KSI_PublicationsFile *pf = NULL; int rc;
-			rc = KSI_PublicationsFile_parse(ctx, b, l, &pf); free(b);
+			rc = KSI_PublicationsFile_parse((pctx != NULL && !strcmp(tok[0], "VERIFY")) ? pctx : ctx, b, l, &pf); free(b);
 			if (!strcmp(tok[0], "PARSE")) {
 				printf("R parse rc=0x%x", rc);
 				if (rc == KSI_OK) { size_t sl = 0; KSI_LIST(KSI_CertificateRecord) *cl = NULL; KSI_LIST(KSI_PublicationRecord) *pl = NULL; KSI_PublicationsHeader *h = NULL; KSI_Integer *v = NULL, *c = NULL;
@@ -101,6 +114,6 @@ int main(void) {
 		} else if (!strcmp(tok[0], "QUIT")) break;
 		fflush(stdout);
 	}
-	KSI_PublicationsFile_free(loaded); KSI_CTX_free(ctx); free(line); free(tok);
+	KSI_PublicationsFile_free(loaded); KSI_CTX_free(ctx); KSI_CTX_free(pctx); free(line); free(tok);
 	return 0;
 }
